@@ -114,7 +114,7 @@ type VecWideSpec struct {
 	Metric string `json:"metric"`
 	Opt    string `json:"opt"`
 	Seed   uint32 `json:"seed"`
-	Every  int    `json:"every"` // docs with i%Every==Every-1 carry no vector (0 = all carry one)
+	Every  int    `json:"every"`           // docs with i%Every==Every-1 carry no vector (0 = all carry one)
 	Multi  int    `json:"multi,omitempty"` // docs with i%Multi==1 carry a second vector in the field (0 = none)
 }
 
@@ -310,6 +310,7 @@ type DropSpec struct {
 type MergePlan struct {
 	Leaf      *BatchSpec  `json:"leaf,omitempty"`
 	Mmap      bool        `json:"mmap,omitempty"`      // leaf: persist and open instead of in-memory
+	Child     bool        `json:"child,omitempty"`     // leaf: built and persisted by ANOTHER process (a file from before a restart), then opened
 	ChunkMode uint32      `json:"chunkMode,omitempty"` // leaf build / merge chunk mode
 	Children  []MergePlan `json:"children,omitempty"`
 	Drops     []DropSpec  `json:"drops,omitempty"`
